@@ -213,6 +213,7 @@ def bounded(tier, seed):
                 if len(violations) >= 5:
                     break
                 lx = sim.fresh({'T': (typ, cnt)}, max_bytes=budget)
+                sim.WIRE = (budget % 2 == 1)     # odd budgets: the requests of this walk travel as bytes through the real parser
                 vals = [((i * 7 + 3) % 100) for i in range(cnt)]
                 sim.write_tag(lx, 'T', 0, cnt, code, vals)
                 for idx in range(cnt):
@@ -248,6 +249,7 @@ def bounded(tier, seed):
                                     violations.append(dict(key='write-walk %s len=%d idx=%d elm=%d piece=%d' % (typ, cnt, idx, elm, piece),
                                                            observed=repr(after), required=repr(want)))
                                 vals = after
+    sim.WIRE = False
     # floating point element types (values exactly representable in 32 bits), on tags configured with float and with integer initial values
     for typ, siz, code in (('REAL', 4, 0xca), ('LREAL', 8, 0xcb)):
         for zero in (0.0, 0):
